@@ -179,9 +179,9 @@ func fixedPayload() flPayload {
 		return flPayload{"fixed-blank-cell", map[string]string{"a": "a1", "b": "   ", "H": "H1", "F": "F2"}}
 	}
 	if fixedPayloadAlt {
-		return flPayload{"fixed-ascii-after-multibyte", map[string]string{"a": "ax", "b": "b 9", "H": "Hé世🙂", "F": "Fé"}}
+		return flPayload{"fixed-ascii-after-multibyte", map[string]string{"a": "a\uFFFDx", "b": "b 9", "H": "Hé世🙂", "F": "Fé"}}
 	}
-	return flPayload{"fixed", map[string]string{"a": "é世 x", "b": " b🙂", "H": "H-é", "F": "F"}}
+	return flPayload{"fixed", map[string]string{"a": "é世 x", "b": " b🙂", "H": "H\uFFFDé", "F": "F\uFFFD"}}
 }
 
 func renderFixed(lines [][]string, p flPayload, crlf, lastTerminated bool) string {
